@@ -504,3 +504,65 @@ def hutchens1(model, res):
                iszero(amp - proj),
                'Hutchens1._run: r times the series at t = 0 is not the sine series of -r on (0, b): the solution does not start from the '
                'uniform initial temperature T0')
+
+
+def rod_mirror(model, res, prop='C07', rule='C07.rod-mirror'):
+    """Rod1D: case BC4 (flux at x = 0, temperature at x = L) is case BC3 (temperature at 0, flux at L) seen in the mirror
+    x -> L - x: with the data exchanged  (alpha_1, gamma_1) <-> (alpha_2, gamma_2), (beta_2, gamma_2) <-> (-beta_1, gamma_1),
+    T_L <-> T_R, the static part and every mode of one are the static part and the mode of the other at the mirrored
+    point (cos((2n+1) pi (L - x)/(2L)) = (-1)^n sin((2n+1) pi x/(2L)) by integer assumptions)."""
+    cls = model.get_class(ROD)
+    runm = cls.find_method('_run')
+    loops = [st for st in runm.node.body if isinstance(st, ast.For)]
+    chain = [st for st in runm.node.body if isinstance(st, ast.If)]
+    if len(loops) != 1 or len(chain) != 1:
+        raise AnalysisError('Rod1D._run changed shape')
+    summand_ast = loops[0].body[0].value
+    cases = []
+    node = chain[0]
+    while True:
+        cases.append((node.test, node.body))
+        if len(node.orelse) == 1 and isinstance(node.orelse[0], ast.If):
+            node = node.orelse[0]
+            continue
+        break
+    if len(cases) != 4:
+        raise AnalysisError('Rod1D._run: expected four special cases')
+    f0 = Formulas()
+    a1, b1, g1, a2, b2, g2, L, TL, TR = (f0.sym(k) for k in ('alpha1', 'beta1', 'gamma1', 'alpha2', 'beta2', 'gamma2', 'L', 'TL', 'TR'))
+
+    def series(idx, name):
+        Fs = Formulas()
+        Fs.env['x'] = x
+        Fs.run([st for st in cases[idx][1] if not (isinstance(st, ast.Assign) and src_of(st.targets[0]) == 'N')], branch=lambda s_: False)
+        S = Fs.env['tempnonhom']
+        mi = cls.find_method('modes_' + name)
+        Fm = Formulas()
+        Fm.run(mi.node.body, branch=lambda s_: {'n!=0': True, 'n==0': False}.get(s_))
+        Ft = Formulas()
+        Ft.arr.update({'An': Fm.arr.get('An', sp.Integer(0)), 'Bn': Fm.arr.get('Bn', sp.Integer(0)), 'kn': Fm.arr['kn']})
+        Ft.env.update({'x': x, 't': t})
+        # the codes' loops start at n = 0; Formulas' n is a positive integer: shift so that all n >= 0 are covered
+        term = Ft.ev(summand_ast).subs(n, n - 1)
+        return S, term
+    S3, m3 = series(2, 'BC3')
+    S4, m4 = series(3, 'BC4')
+    d = sp.Symbol('d_', real=True)
+    # mirror of BC4 data into BC3 data (simultaneous substitution)
+    mirror = {a1: a2, g1: g2, b2: -b1, g2: g1, TL: TR, TR: TL}
+    S3m = S3.subs(mirror, simultaneous=True)
+    m3m = m3.subs(mirror, simultaneous=True)
+    ok_s = iszero(S4.subs(x, L - x) - S3m)
+    ok_m = iszero(sp.expand_trig(m4.subs(x, L - x)) - sp.expand_trig(m3m))
+    for label, ok in (('the static part', ok_s), ('every mode', ok_m)):
+        res.obligations += 1
+        res.evaluations += 1
+        res.nontrivial += 1
+        if ok:
+            res.discharged += 1
+            res.sample({'rule': rule, 'identity': 'BC4 at L - x == BC3 with mirrored data at x: %s' % label}, limit=20)
+        else:
+            res.add(Finding(prop, rule, runm.module.relpath, runm.qualname, 'BC3 / BC4 mirror: %s' % label,
+                            'Rod1D: %s of case BC4 evaluated at L - x is not %s of case BC3 with the boundary data and the '
+                            'initial end temperatures exchanged: the two routes to the same physical problem disagree' % (label, label),
+                            line=chain[0].lineno, construct='BC3 / BC4 branches'))
